@@ -5,7 +5,7 @@
    The model's outcome is compared with Configuration().read and the potable CLI on generated well-formed models and on
    every catalogue mutation of them; malformations below the lexical level of the model (non-numeric tokens, placeholders,
    text that is not an INI file, formula syntax) are checked by the oracle only. *)
-From V Require Import lib.Common model.Validate proof.C16 model.Ini proof.IniProofs proof.IniFile.
+From V Require Import lib.Common model.Validate proof.C16 model.Ini proof.IniProofs proof.IniFile model.DefnSyntax model.Lexer proof.C09Syntax proof.C09Lexer proof.C16Text.
 Local Open Scope Z_scope.
 
 (* --- a table is written exactly for the well-formed models; every other model is a configuration error; no third outcome *)
@@ -81,6 +81,21 @@ Definition ex_bad : defn :=
   Defn [(0, PMod MSpline [Defn [(0, ex_buck 0); (10, PInst {| i_label := LBuck4Spline; i_params := [20] |}); (20, ex_buck 32)]])].
 Example c16_example : validate (ex_model ex_defn) = Ok tt /\ wf_model (ex_model ex_defn) /\ validate (ex_model ex_bad) = CfgErr.
 Proof. split; [reflexivity|split; [apply accepts_iff_wf; reflexivity|reflexivity]]. Qed.
+
+(* --- definitions as text (proof/C16Text.v over the lexer and parser of C09): whether the text of a definition is accepted depends
+       only on the tree it spells.  Every rendering of a tree d -- any spelling of its labels and numbers, any admissible whitespace,
+       continuation lines -- is accepted exactly when the resolved tree is well formed in the sense of the manual (wf_defn); changing
+       a run of whitespace never changes the verdict; a text that spells no tree at all is refused *)
+Theorem c16_text_spelling : forall reg mreg z0 idn numv d cts sp tr, map (abs_tok idn numv) cts = print_defn d -> forallb tok_ok cts = true ->
+  seps_ok false cts sp = true -> forallb is_ws tr = true ->
+  (accept_text reg mreg z0 idn numv (render cts sp tr) = true <-> wf_defn (resolve reg mreg z0 d)).
+Proof. intros. rewrite (accept_spelling reg mreg z0 idn numv d cts sp tr) by assumption. apply accepts_defn_iff. Qed.
+Theorem c16_text_whitespace : forall reg mreg z0 idn numv a w1 w2 b, forallb is_ws w1 = true -> forallb is_ws w2 = true -> w1 <> [] -> w2 <> [] ->
+  accept_text reg mreg z0 idn numv (a ++ w1 ++ b) = accept_text reg mreg z0 idn numv (a ++ w2 ++ b).
+Proof. exact accept_ws. Qed.
+Theorem c16_text_unreadable : forall reg mreg z0 idn numv text, read_value idn numv text = None -> accept_text reg mreg z0 idn numv text = false.
+Proof. exact reject_unreadable. Qed.
+Print Assumptions c16_text_spelling.
 
 (* --- text that is not an INI file (model/Ini.v, the line parser of configparser as the repository configures it): when the
        first line that is neither blank nor a comment is not a section header the parse fails -- ConfigParser turns every
